@@ -215,17 +215,35 @@ def twin(facts: CppFacts):
             if len(a_st) == 1 and re.match(rf"^(return\s+)?Unchecked{name}\b", a_st[0]):
                 continue
             # Write is checked through TryToWrite: its single storage write must equal UncheckedWrite's
-            if name == "Write":
-                tw = by.get((cls, "TryToWrite"))
+            delegates = any(re.search(rf"\bTryTo{name}\s*\(", st_) for st_ in a_st)
+            if name == "Write" or delegates:
+                # X is checked through TryToX: the single storage write of TryToX must equal UncheckedX's
+                tw = by.get((cls, "TryTo" + name))
                 if tw:
-                    w = [s for s in statements(tw[0].body) if re.search(r"\bWriteUInt\s*\(", s)]
-                    if len(w) == 1:
-                        ta = _norm_tokens([t[len("Unchecked"):] if t.startswith("Unchecked") and len(t) > 9 else t for t in tokens(w[0])])
-                        if ta == sb:
+                    def _calls(body, fn):
+                        out = []
+                        for mm_ in re.finditer(r"(?<!\w)" + fn + r"\s*\(", body):
+                            k0 = mm_.end() - 1
+                            d_, k1 = 0, k0
+                            while k1 < len(body):
+                                if body[k1] == "(":
+                                    d_ += 1
+                                elif body[k1] == ")":
+                                    d_ -= 1
+                                    if d_ == 0:
+                                        break
+                                k1 += 1
+                            out.append(body[k0:k1 + 1])
+                        return out
+                    erase_u = lambda toks: _norm_tokens([t[len("Unchecked"):] if t.startswith("Unchecked") and len(t) > 9 else t for t in toks])
+                    wa = _calls(_CM.sub("", tw[0].body), "WriteUInt")
+                    wb = _calls(_CM.sub("", b.body), "UncheckedWriteUInt")
+                    if len(wa) == 1 and len(wb) == 1:
+                        if erase_u(tokens(wa[0])) == erase_u(tokens(wb[0])):
                             continue
-                        res.add(f"{cls}|Write|storage", f"{cls}::TryToWrite stores `{w[0][:100]}` but UncheckedWrite stores "
-                                f"`{' '.join(statements(b.body))[:100]}`: checked and unchecked writes encode differently",
-                                a.file, tw[0].line, f"{cls}::TryToWrite")
+                        res.add(f"{cls}|{name}|storage", f"{cls}::TryTo{name} stores `{' '.join(wa[0].split())[:100]}` but Unchecked{name} stores "
+                                f"`{' '.join(wb[0].split())[:100]}`: checked and unchecked writes encode differently",
+                                a.file, tw[0].line, f"{cls}::TryTo{name}")
                         continue
             res.add(f"{cls}|{name}|twin", f"{cls}::{name} and {cls}::Unchecked{name} compute different expressions once the "
                     f"checks are removed: `{' '.join(sa)[:110]}` vs `{' '.join(sb)[:110]}`", a.file, a.line, f"{cls}::{name}")
